@@ -114,7 +114,10 @@ CHECKS["C08"] = dict(
          "downgraded), Balanced, QuiescentIsClean. Design level: MC_KotoVm.tla (operational model of vm.rs against the same "
          "rules) is model-checked; the variants in which a nested timeout can be caught or comes back as an ordinary error must be "
          "rejected, and the liveness property TimeoutEventuallyFires holds under weak fairness of the clock and the deadline "
-         "poll, and is violated in the variant where nested executions do not poll the deadline.",
+         "poll, and is violated in the variant where nested executions do not poll the deadline. Terminating scripts are unaffected: "
+         "the invariant RearmedPerRun (the clock a run's deadline polls read is the time this run has used) holds and rejects the "
+         "variant in which a failed run's deadline stays armed; three sessions run long terminating scripts and a runaway script "
+         "after runs that ended with an error.",
     design_ref="DESIGN.md §5 C08, Appendix A",
     note="Real time is outside TLA+ (harness assertion with slack); long executions are recorded as head+tail with a Gap "
          "event, for which the specification abstains on what it cannot know.",
@@ -233,7 +236,9 @@ CHECKS["C19"] = dict(
     text="Shared.tla transcribes the lock steps of the list operations (core_lib/list.rs: which lock, what is checked and changed "
          "under it) and TLC checks, for every pair/triple of scripts and every interleaving, NoPanic, Linearizable (SharedOps!Explains: "
          "the observations and final contents are explained by a one-at-a-time order), LocksAreSound and deadlock freedom for "
-         "single-container operations; the model of the code as it was (two-step insert/remove) must be rejected. Conformance on the "
+         "single-container operations (push, pop, clear, get, size, insert, remove, remove by value, sort, fill); the models of the code as it "
+         "was or as seeded changes made it (two-step insert/remove, two-step remove by value, sort/fill prepared under the read lock "
+         "and stored under the write lock) must be rejected. Conformance on the "
          "arc build with real threads (kv threads): small rounds of 2-4 runtimes x 2-4 list operations are validated by TLC against "
          "the same Explains operator (Trace_Shared.tla); soak rounds of racing operation pairs on a shared list or map check no "
          "panic, no hang, exact counts (no lost update) and that readers never see a partially applied multi-element update. "
